@@ -16,10 +16,12 @@ from mc import core
 LEVEL = 'model_checking'
 RULE = ('every digraph in the bound (edge set incl. self-loops and back edges) x every comb/seq kind assignment x every '
         'instantiation order (n!) x placement (flat / split over two structural children / late addition after a first '
-        'getSimulator()); for accepted netlists BFS over register states x all 2^n input vectors with a plain-Python '
+        'getSimulator() / class-identity variants for n <= 2: behaviour added by a subclass of an instantiated port-only class, a '
+        'structural class with the short name of the primitive); kinds c (comb), s (register), m (Mealy leaf with clock() and propagate()); for accepted netlists BFS over register states x all 2^n input vectors with a plain-Python '
         'netlist evaluator as reference, topological-order and fixpoint checks in every state; netlists with a '
         'combinational cycle must be refused. non-trivial = input vector on which some node output is 1')
-ASSUMPTIONS = ['harness-defined propagatable/clockable Logic subclasses (XNOR of all inputs, two outputs) are legal user code',
+ASSUMPTIONS = ['harness-defined propagatable/clockable Logic subclasses (XNOR of all inputs, two outputs) are legal user code, including a Mealy-style '
+               'leaf with both clock() and propagate() whose outputs depend combinationally on its inputs (it counts for combinational cycles)',
                'reference evaluator in this file is trusted']
 BOUNDS = {
     'quick': 'all digraphs on <=3 nodes (all 2^(n^2) edge sets) with every comb/seq assignment, all orders; all placements for n<=2, '
@@ -60,6 +62,63 @@ class SeqG(Logic):
         self.o1.prepare(x)
 
 
+class MealyG(Logic):
+    """both methods: a state bit st (loaded on the edge with the XOR of the inputs) and outputs that depend
+    combinationally on the inputs AND on st: o0 = XNOR(inputs) ^ st, o1 = XOR(inputs) ^ st."""
+    def __init__(self, parent, name, ins, o0, o1):
+        super().__init__(parent, name)
+        self.ins = [self.addIn('i%d' % i, w) for i, w in enumerate(ins)]
+        self.o0 = self.addOut('o0', o0)
+        self.o1 = self.addOut('o1', o1)
+        self.st = 0
+
+    def clock(self):
+        x = 0
+        for w in self.ins:
+            x ^= w.get()
+        self.st = x
+
+    def propagate(self):
+        x = self.st
+        for w in self.ins:
+            x ^= w.get()
+        self.o0.put(x ^ 1)
+        self.o1.put(x)
+
+
+class PortsOnly(Logic):
+    """an instantiable base class with ports and no behaviour of its own"""
+    def __init__(self, parent, name, ins, o0, o1):
+        super().__init__(parent, name)
+        self.ins = [self.addIn('i%d' % i, w) for i, w in enumerate(ins)]
+        self.o0 = self.addOut('o0', o0)
+        self.o1 = self.addOut('o1', o1)
+
+
+class CombSub(PortsOnly):
+    """the behaviour of CombG added by a subclass of PortsOnly"""
+    def propagate(self):
+        x = 0
+        for w in self.ins:
+            x ^= w.get()
+        self.o0.put(x ^ 1)
+        self.o1.put(x)
+
+
+def _same_name_structural():
+    # a STRUCTURAL class that happens to have the same short name as the primitive CombG (another module's class)
+    class CombG(Logic):
+        def __init__(self, parent, name, a, r):
+            super().__init__(parent, name)
+            self.addIn('a', a)
+            self.addOut('r', r)
+            py4hw.Buf(self, 'b', a, r)
+    return CombG
+
+
+COMBLIKE = 'cm'       # kinds whose outputs depend combinationally on their inputs
+
+
 def edges_of(n, code, pairs):
     return [pairs[i] for i in range(len(pairs)) if (code >> i) & 1]
 
@@ -73,7 +132,7 @@ def fwd_pairs(n):
 
 
 def has_comb_cycle(n, edges, kinds):
-    adj = {i: [j for (a, j) in edges if a == i and kinds[j] == 'c'] for i in range(n) if kinds[i] == 'c'}
+    adj = {i: [j for (a, j) in edges if a == i and kinds[j] in COMBLIKE] for i in range(n) if kinds[i] in COMBLIKE}
     color = {}
 
     def dfs(u):
@@ -94,7 +153,7 @@ def src_port(i, j):
 
 
 def build(n, edges, kinds, order, placement):
-    """placement: ('flat',) | ('split', mask) | ('late', k)  -> returns ctx (sim not yet created)"""
+    """placement: ('flat',) | ('split', mask) | ('late', k) | ('cls', variant)  -> returns ctx (sim not yet created)"""
     hw = py4hw.HWSystem()
     x = [hw.wire('x%d' % j) for j in range(n)]
     o = [(hw.wire('n%d_o0' % j), hw.wire('n%d_o1' % j)) for j in range(n)]
@@ -103,10 +162,25 @@ def build(n, edges, kinds, order, placement):
         ga, gb = Logic(hw, 'ga'), Logic(hw, 'gb')
         parents = [ga if (placement[1] >> j) & 1 else gb for j in range(n)]
     c = types.SimpleNamespace(sys=hw, free=x, n=n, edges=edges, kinds=kinds, o=o, nodes={})
+    comb_cls = CombG
+    c.after = None
+    if placement[0] == 'cls':
+        # class-identity variants: the comb behaviour comes from a subclass of an instantiable port-only class, one instance of
+        # which is created before ('subfirst') / after ('sublast') the nodes; or a structural class with the short name of the
+        # primitive is instantiated first ('samename')
+        spare = lambda: PortsOnly(hw, 'spare', [hw.wire('sp_i')], hw.wire('sp_o0'), hw.wire('sp_o1'))
+        if placement[1] == 'samename':
+            _same_name_structural()(hw, 'other', hw.wire('sn_a'), hw.wire('sn_r'))
+        else:
+            comb_cls = CombSub
+            if placement[1] == 'subfirst':
+                spare()
+            else:
+                c.after = spare
 
     def inst(j):
         ins = [x[j]] + [o[i][src_port(i, j)] for (i, jj) in edges if jj == j]
-        cls = CombG if kinds[j] == 'c' else SeqG
+        cls = {'c': comb_cls, 's': SeqG, 'm': MealyG}[kinds[j]]
         p = parents[j]
         if p is not hw:
             for k, w in enumerate(ins):
@@ -120,7 +194,7 @@ def build(n, edges, kinds, order, placement):
 def model_eval(n, edges, kinds, regs, xin):
     """plain-Python settle: returns list of (o0, o1) per node. regs: dict j->(o0,o1) for seq nodes."""
     val = {j: regs[j] for j in range(n) if kinds[j] == 's'}
-    pending = [j for j in range(n) if kinds[j] == 'c']
+    pending = [j for j in range(n) if kinds[j] in COMBLIKE]
     guard = 0
     while pending:
         guard += 1
@@ -129,7 +203,7 @@ def model_eval(n, edges, kinds, regs, xin):
         for j in list(pending):
             preds = [i for (i, jj) in edges if jj == j]
             if all(i in val for i in preds):
-                acc = xin[j]
+                acc = xin[j] ^ (regs[j] if kinds[j] == 'm' else 0)
                 for i in preds:
                     acc ^= val[i][src_port(i, j)]
                 val[j] = (acc ^ 1, acc)
@@ -140,12 +214,12 @@ def model_eval(n, edges, kinds, regs, xin):
 def model_next(n, edges, kinds, vals, xin):
     regs = {}
     for j in range(n):
-        if kinds[j] == 's':
+        if kinds[j] in 'sm':
             acc = xin[j]
             for (i, jj) in edges:
                 if jj == j:
                     acc ^= vals[i][src_port(i, j)]
-            regs[j] = (acc ^ 1, acc)
+            regs[j] = (acc ^ 1, acc) if kinds[j] == 's' else acc
     return regs
 
 
@@ -209,8 +283,10 @@ def run_design(n, edges, kinds, order, placement, res):
         else:
             for j in c.order:
                 c.inst(j)
+        if c.after:
+            c.after()
         c.sim = c.sys.getSimulator()
-        c.regs = {j: (0, 0) for j in range(n) if kinds[j] == 's'}
+        c.regs = {j: ((0, 0) if kinds[j] == 's' else 0) for j in range(n) if kinds[j] in 'sm'}
         return c
 
     res['programs'] += 1
@@ -278,7 +354,10 @@ def run_design(n, edges, kinds, order, placement, res):
 
 def kind_sets(n, mode):
     if mode == 'all':
-        return [k for k in itertools.product('cs', repeat=n)]
+        # every comb/seq assignment, plus the assignments with exactly one or only Mealy-style leaves (clock() AND propagate())
+        out = [k for k in itertools.product('cs', repeat=n)]
+        out += [k for k in itertools.product('csm', repeat=n) if k.count('m') == 1 or k.count('m') == n]
+        return out
     if mode == 'comb':
         return [tuple('c' * n)]
     if mode == 'mixed6':
@@ -291,6 +370,8 @@ def kind_sets(n, mode):
 
 def placements(n, mode):
     out = [('flat',)]
+    if n <= 2 and mode in ('full', 'some'):
+        out += [('cls', 'subfirst'), ('cls', 'sublast'), ('cls', 'samename')]
     if mode in ('full',):
         out += [('split', m) for m in range(1, (1 << n) - 1)]
         out += [('late', k) for k in range(1, n)]
